@@ -116,6 +116,10 @@ def configs_for(prop, tier):
             c += [cfg('g++', '-O2', 'c++20', extra=['-ffast-math'], tag='gcc-O2-c++20-fastmath')]
         if prop == 'C08':
             c += [cfg('clang++', '-O0', 'c++20'), cfg('g++', '-O3', 'c++2b')]
+        elif prop not in INTEGER_ONLY and prop not in FINITE_FASTMATH:
+            # C04, C07, C16, C20: every other property already has a configuration that is C++20 *and* evaluates at run time
+            # (code behind `#if __cplusplus > 201703L` + `!is_constant_evaluated()`, round 10: C01-p2, C03-p2)
+            c += [cfg('g++', '-O1', 'c++20')]
     else:
         c = thorough_cfgs()
         if prop in NEEDS_ABACUS:
